@@ -39,7 +39,12 @@
 //     mu = 1, d2 = 0, psi = 1/sumsq(alpha)), GenPowerCone::{new, dim1, dim2, dim, degree (dim1 + 1), numel, is_symmetric (false),
 //     is_sparse_expandable (true), allows_primal_dual_scaling (false), Hs_is_diagonal (true), unit_initialization (sqrt(1 + alpha_i) | 0; z = s),
 //     update_scaling (mu and z stored), get_Hs (mu*d1_i | mu*d2), mul_Hs (gp_mulHs_entry), affine_ds, combined_ds_shift (grad_i*sigma_mu),
-//     Delta_s_from_Delta_z_offset, compute_barrier (PRIMAL barrier first), step_length (contract shape of unit `steplen`; work vector restored)};
+//     Delta_s_from_Delta_z_offset, compute_barrier (PRIMAL barrier first), step_length (contract shape of unit `steplen`; work vector restored),
+//     gradient_primal as a STATEMENT SLICE `gradient_primal_tail` (from `let (p, r) = s.split_at(dim1);` to the end; finding F9): |r| > eps:
+//     g[dim1 + i] = (g1/|r|) * s[dim1 + i] - the TAIL OF s, no field of the cone - and g[i] = -(1 + a_i + a_i*g1*|r|)/s[i]; otherwise tail 0 and
+//     g[i] = -(1 + a_i)/s[i]; g1 = gp_g1_spec(|r|, p, phi, alpha, psi) (stand-in for `_newton_raphson_genpowcone`); the fold computing phi is
+//     dropped (phi is a parameter of the slice),
+//     barrier_primal (-f*(-g(s)) - (dim1 + 1), g = the gradient above with phi = gp_phi_spec; work_pb is scratch)};
 //     margins / scaled_unit_shift / set_identity_scaling: `ensures false` as above.
 //   Lemmas (F-real): lemma_Hs_block_is_operator (C11: the block get_Hs writes, read as a symmetric matrix, times x is what mul_Hs returns),
 //     lemma_pow_central_real (1 + (1 - a) = 2 - a), lemma_exp_primal_accept_no_panic (see OPEN ITEM 1).
@@ -50,13 +55,15 @@
 //   * stand-ins with uninterpreted results, each a function of exactly what the body reads: higher_correction of exp / pow (value; "cone not
 //     modified" and panic-freedom are PROVED on the real body, see higher_correction_body), PowerCone::gradient_primal (Newton iteration
 //     `_newton_raphson_powcone`, two closures), `_wright_omega` (value f_wright_omega(z); precondition = its documented panic `z < 0`),
-//     GenPowerCone::{update_dual_grad_H (writes grad, p, q, r, d1, d2 only), barrier_primal (scratch: work_pb), barrier_dual,
-//     is_primal_feasible, is_dual_feasible};
+//     `_newton_raphson_genpowcone` (value gp_g1_spec of its arguments), the phi fold of GenPowerCone::gradient_primal (gp_phi_spec; the whole
+//     function is ASSUMED to be its verified tail slice run with that phi), GenPowerCone::{update_dual_grad_H (writes grad, p, q, r, d1, d2
+//     only), barrier_dual, is_primal_feasible, is_dual_feasible};
 //   * F-real: prelude/float_real_axioms.rs, and the local ADMITTED block `ln_ax` (log is a function of the real value; log(1/x) = -log x for
 //     x > 0) used ONLY by lemma_exp_primal_accept_no_panic.  canary_real_axioms and canary_ln must FAIL.
 // DROPPED (not under contract): `_wright_omega` body (raw f64 constant arithmetic `1. / 16.0`: vstd's f64 division has preconditions),
-//   `_newton_raphson_powcone`, `_newton_raphson_genpowcone`, PowerCone::gradient_primal, GenPowerCone::{update_dual_grad_H, barrier_primal,
-//   barrier_dual, gradient_primal, is_primal_feasible, is_dual_feasible (closure with `-> T` return type inside fold: R24 does not take it),
+//   `_newton_raphson_powcone`, `_newton_raphson_genpowcone`, PowerCone::gradient_primal, GenPowerCone::{update_dual_grad_H,
+//   barrier_dual, the phi fold of gradient_primal, is_primal_feasible, is_dual_feasible (fold closure with an explicit `-> T` return type: rule
+//   R24 does not take it; a two-line additive change of R24 would open all four folds),
 //   higher_correction (`unimplemented!()`, never called: combined_ds_shift has no correction)}; the arithmetic content of the Cholesky pair.
 // OPEN ITEMS:
 //   1. (C04) `_wright_omega` panics for a negative argument.  ExponentialCone::{compute_barrier, update_scaling / update_Hs /
@@ -68,7 +75,7 @@
 //   2. (C04) GenPowerCone::update_dual_grad_H contains `assert!(zeta > 0)` (panics if the iterate is not strictly dual feasible): body dropped.
 //   3. additions to tools/extract.py (additive): rule `tupassignx` ((z[0], z[1], z[2]) = (s[0], s[1], s[2]) -> three assignments), rule
 //      `unreach` (`unreachable!();` -> `return unreachable_panic();`, a local fn with `ensures false`), directive `//@after_loop k`.
-// MUTATION ROUND (scratch copy of /repo, one wrong edit at a time, whole unit re-verified): 65 valid wrong edits, 65 rejected by a named
+// MUTATION ROUND (scratch copy of /repo, one wrong edit at a time, whole unit re-verified): 74 valid wrong edits, 74 rejected by a named
 //   obligation, 0 survivors (one further edit did not compile).  E.g. PowerCone::unit_initialization `s[2] = 0` written to `z[2]`; central-point
 //   digits swapped / one digit changed; z copied from the wrong component; DenseMatrixSym3::mul wrong row, packing order of index_linear,
 //   norm_fro off-diagonals once, quad_form entry, scaled_from index; get_Hs / mul_Hs from H_dual; affine_ds / offset copying z; compute_barrier
@@ -76,8 +83,10 @@
 //   correction arguments; update_Hs dispatch flipped; 8 edits inside use_primal_dual_scaling (condition, ds, swapped denominators, fallback mu,
 //   cross product, loop bounds, de2); use_dual_scaling direction; update_scaling without the z copy / in the wrong order; split_borrow_mut
 //   swapped; gradient / Hessian / barrier signs; 16 edits in genpowcone.rs; logsafe `<`; Newton counter dropped; higher_correction index / frame;
-//   `unreachable!()` replaced by a returning body (margins, set_identity_scaling).
-// COST: 156 obligations, about 20 s; heaviest: use_primal_dual_scaling 6.9 M (exp) / 6.4 M (pow) of the 150 M of `--rlimit 50` (4.6 %),
+//   `unreachable!()` replaced by a returning body (margins, set_identity_scaling); GenPowerCone::gradient_primal: `&data.r` re-introduced (F9),
+//   `norm_r` -> `phi` in the quotient, wrong else branch, `* norm_r` dropped, tail not zeroed, comparison flipped; barrier_primal: negate dropped,
+//   sign of the degree term, wrong argument.
+// COST: 160 obligations, about 20 s; heaviest: use_primal_dual_scaling 6.9 M (exp) / 6.4 M (pow) of the 150 M of `--rlimit 50` (4.6 %),
 //   GenPowerCone::mul_Hs 1.6 M, everything else below 1 M.  Stable under Z3 seeds 1-6 (tools/stability_probe.py).
 use vstd::prelude::*;
 verus! {
@@ -937,7 +946,7 @@ impl GenPowerCone<F> {
         old(self).alpha@.len() < usize::MAX,      // degree() = dim1 + 1
     ensures r == gp_barrier_primal(old(self).alpha@, old(self).data.psi, s@), gp_same_but_scratch(*final(self), *old(self)),
         final(self).data.work@ == old(self).data.work@,
-//@after "g.negate();"
+//@before "let out ="
         proof { assert(g@ =~= seq_neg(gp_gradient_primal(self.alpha@, self.data.psi, s@))); }
 //@end
     #[verifier::external_body] pub fn barrier_dual(&mut self, z: &[F]) -> (r: F)
@@ -1062,7 +1071,7 @@ pub open spec fn gp_barrier_primal(al: Seq<F>, psi: F, s: Seq<F>) -> F {
     f_sub(f_neg(gp_barrier_dual(al, seq_neg(gp_gradient_primal(al, psi, s)))), f_from_usize((al.len() + 1) as usize))
 }
 impl GenPowerCone<F> {
-//@fn file=src/solver/core/cones/genpowcone.rs in="NonsymmetricNDCone<T> for GenPowerCone<T>" name=gradient_primal as=gradient_primal_tail rules=R1,R2,zipidx:1=mii;2=mii from="let (p, r) = s.split_at(dim1);" to="if norm_r > T::epsilon()" header="fn gradient_primal_tail<T: FloatT>(&self, g: &mut [T], s: &[T], dim1: usize, data: &GenPowerConeData<T>, phi: T)"
+//@fn file=src/solver/core/cones/genpowcone.rs in="NonsymmetricNDCone<T> for GenPowerCone<T>" name=gradient_primal as=gradient_primal_tail rules=R1,R2,zipidx:1=mii;2=mii from="let (p, r) = s.split_at(dim1);" to="if norm_r" header="fn gradient_primal_tail<T: FloatT>(&self, g: &mut [T], s: &[T], dim1: usize, data: &GenPowerConeData<T>, phi: T)"
 //@contract
     requires gp_wf0(*self), dim1 == gp_dim1(*self), *data == *self.data,
         old(g)@.len() == gp_dim(*self), s@.len() == gp_dim(*self),
